@@ -1237,7 +1237,24 @@ func c15Run(c *vk.Case) {
 					}
 				}
 				doc := c15Plant(b.doc, groups, p, s)
+				disabled := false
+				if s.Hostile && j.lifecycle == "file" && len(p.path) >= 2 && p.path[0] == "integrations" && g%2 == 0 {
+					// every other position: the integration that carries the hostile string is switched off (kept in the
+					// file for later); its table is still migrated, references to it are still resolved
+					if igs, ok := doc["integrations"].([]any); ok {
+						if idx, ok := p.path[1].(int); ok && idx < len(igs) {
+							if ig, ok := igs[idx].(map[string]any); ok {
+								ig["enabled"] = false
+								disabled = true
+								c.Obs("hostile_strings_in_disabled_integrations", 1)
+							}
+						}
+					}
+				}
 				o := &c15Outcome{Lifecycle: j.lifecycle, Path: c15PathString(p.path), Class: j.class, String: s.ID, Value: s.value(p.val)}
+				if disabled {
+					o.Path += " (integration disabled)"
+				}
 				wit := c15Lifecycle(c, b, doc, j.lifecycle, o)
 				c.SetSig("%s|%s|%s|%s", j.lifecycle, j.class, s.ID, o.Outcome)
 				c.Seen("outcomes_"+j.lifecycle+"_"+s.ID, j.class+" => "+o.Outcome)
